@@ -60,6 +60,12 @@ QueryUUIDs == {T.qgroups[i].uuid : i \in DOMAIN T.qgroups}
 Applies == OK /\ (T.ev = "sprint" \/ T.modified)
 MembershipOK == Applies => \A i \in DOMAIN T.qgroups :
                    QMember(T.qgroups[i]) <=> (After.status = "active" /\ T.qgroups[i].matches)
+\* for the groups whose query the specification can evaluate on the projected contact, the verdict is the specification's
+\* own - the real evaluator is not trusted there ("tel != X" holds when every tel URN differs from X)
+RefMatch(g) == CASE g.ref = "nottel" -> \A i \in DOMAIN T.after.tels : T.after.tels[i] # g.arg
+                 [] OTHER -> g.matches
+MembershipRef == Applies => \A i \in DOMAIN T.qgroups :
+                   T.qgroups[i].ref # "" => (QMember(T.qgroups[i]) <=> (After.status = "active" /\ RefMatch(T.qgroups[i])))
 \* a contact that BECOMES non-active leaves all its static groups
 Deactivated  == OK /\ Before.status = "active" /\ After.status # "active" => After.groups \subseteq QueryUUIDs
 \* every membership change is reported: the groups part of Announced
@@ -67,7 +73,7 @@ ChangesReported == OK => ApplyEvents(Before, T.events).groups = After.groups
 
 InvC03 == /\ Check("C03.Announced", Announced) /\ Check("C03.ModifiedIff", ModifiedIff)
           /\ Check("C03.SecondNoop", SecondNoop) /\ Check("C03.NoPanic", NoPanic)
-InvC06 == /\ Check("C06.MembershipOK", MembershipOK) /\ Check("C06.Deactivated", Deactivated)
+InvC06 == /\ Check("C06.MembershipOK", MembershipOK) /\ Check("C06.MembershipRef", MembershipRef) /\ Check("C06.Deactivated", Deactivated)
           /\ Check("C06.ChangesReported", ChangesReported)
 Accepted == TLCGet("stats").diameter = Len(Trace)
 =============================================================================
